@@ -105,6 +105,10 @@ func (d *vwUser) MergeRemoteState([]byte, bool) {}
 
 type vwNodeCfg struct {
 	lateKeys bool // start with an empty keyring and install the keys after the node exists
+	// with lateKeys: one gossip round runs while the keyring is still empty (whatever the node works out on
+	// its first round must not outlive the key installation)
+	gossipFirst bool
+	depth       int // HandoffQueueDepth (0: effectively unbounded)
 	name     string
 	label    string
 	skip     bool
@@ -147,6 +151,9 @@ func vwNode(c vwNodeCfg) (*Memberlist, *vwTap, *vwUser) {
 	conf.ProtocolVersion = c.pv
 	conf.EnableCompression = c.compress
 	conf.HandoffQueueDepth = 100000
+	if c.depth > 0 {
+		conf.HandoffQueueDepth = c.depth
+	}
 	conf.RetransmitMult = 100
 	if c.udp > 0 {
 		conf.UDPBufferSize = c.udp
@@ -156,6 +163,9 @@ func vwNode(c vwNodeCfg) (*Memberlist, *vwTap, *vwUser) {
 	m, err := newMemberlist(conf)
 	if err != nil {
 		panic(err)
+	}
+	if c.gossipFirst {
+		m.gossip()
 	}
 	for _, k := range lateKeys {
 		if err := m.config.Keyring.AddKey(k); err != nil {
@@ -453,6 +463,10 @@ type vwSent struct {
 	sealedOK bool
 }
 
+// when set, the next genuine send carries exactly this message, under encryption version 1 (protocol 5), one key,
+// no label, no compression: used for plaintexts of a chosen length and ending
+var vwForceMsg []byte
+
 func vwGenuine(r *vfRng, forceEnc bool) *vwSent {
 	label := vwLabels[r.pick([]int{0, 0, 1, 2, 5})]
 	var keys []int
@@ -471,6 +485,12 @@ func vwGenuine(r *vfRng, forceEnc bool) *vwSent {
 	if !forceEnc && r.chance(10) {
 		s.vout = false
 	}
+	forced := vwForceMsg
+	vwForceMsg = nil
+	if forced != nil {
+		label, keys, pv = "", []int{1}, 5
+		s = vwNodeCfg{name: "snd", keys: keys, vout: true, vin: true, pv: pv}
+	}
 	rk := append([]int(nil), keys...)
 	if len(rk) > 1 && r.chance(50) {
 		rk[0], rk[1] = rk[1], rk[0] // receiver's primary differs; sender's key is installed
@@ -484,11 +504,17 @@ func vwGenuine(r *vfRng, forceEnc bool) *vwSent {
 	}
 	sm, stap, _ := vwNode(s)
 	pm := r.pick([]int{0, 5, 6}) // 0: destination unknown; else PMax+1
+	if forced != nil {
+		pm = 0 // no checksum header: the plaintext is the message itself
+	}
 	var node *Node
 	if pm > 0 {
 		node = &Node{Name: "10.0.0.1", Addr: []byte{10, 0, 0, 1}, Port: 7946, PMax: uint8(pm - 1)}
 	}
 	msg, parts := vwMsg(r)
+	if forced != nil {
+		msg, parts = forced, [][]byte{forced}
+	}
 	stap.take()
 	if err := sm.rawSendMsgPacket(Address{Addr: "10.0.0.1:7946", Name: "x"}, node, msg); err != nil {
 		return nil
@@ -578,6 +604,37 @@ func vwCryptoFailure(r *vfRng, st *vfStats) vfCase {
 	return c
 }
 
+// kind 6: a flood of decodable messages with nobody draining the hand-off queues
+func vwFlood(r *vfRng, st *vfStats) vfCase {
+	depth := 4 + r.n(12)
+	rm, _, _ := vwNode(vwNodeCfg{name: "rcv", pv: 5, depth: depth})
+	vsn := []uint8{1, 5, 2, 0, 0, 0}
+	order := r.n(2)
+	feed := func(kind int) {
+		for i := 0; i < 3*depth+r.n(10); i++ {
+			var b *bytes.Buffer
+			if kind == 0 {
+				b, _ = encode(aliveMsg, &alive{Incarnation: uint32(i + 1), Node: fmt.Sprintf("f%d", i), Addr: []byte{10, 0, 3, byte(i)}, Port: 7946, Vsn: vsn}, false)
+			} else {
+				b, _ = encode(suspectMsg, &suspect{Incarnation: 1, Node: fmt.Sprintf("f%d", i), From: "x"}, false)
+			}
+			rm.ingestPacket(b.Bytes(), vwFrom, time.Now())
+		}
+	}
+	feed(order)
+	feed(1 - order)
+	rm.msgQueueLock.Lock()
+	hi, lo := rm.highPriorityMsgQueue.Len(), rm.lowPriorityMsgQueue.Len()
+	rm.msgQueueLock.Unlock()
+	c := vfCase{Cfg: []int64{6, 0, 1400}}
+	c.Ops = [][]int64{{int64(order)}}
+	c.Obs = [][]int64{{int64(hi), int64(lo), int64(depth)}}
+	st.Ops++
+	st.OpHist["flood"]++
+	st.class(fmt.Sprintf("6|%d|%v|%v", order, hi > depth, lo > depth))
+	return c
+}
+
 func vwLeak(wire, msg []byte) bool {
 	return len(msg) >= 12 && bytes.Contains(wire, msg[:12]) || (len(msg) >= 24 && bytes.Contains(wire, msg[len(msg)-12:]))
 }
@@ -644,6 +701,18 @@ func vwFlip(b []byte, pos int, bit uint) []byte {
 
 // tampered / replayed copies of one genuine encrypted packet
 func vwTamper(r *vfRng, st *vfStats) []vfCase {
+	if r.chance(30) {
+		// a version-1 plaintext (type byte + payload, no checksum header) that is a whole number of cipher blocks
+		// and ends in a byte that LOOKS like a PKCS7 pad length but is not preceded by a well-formed padding
+		n := 16*(1+r.n(4)) - 1
+		p := make([]byte, n)
+		for i := range p {
+			p[i] = byte(r.n(256))
+		}
+		p[n-1] = byte(2 + r.n(15))
+		p[n-2] = 0
+		vwForceMsg = append([]byte{byte(userMsg)}, p...)
+	}
 	g := vwGenuine(r, true)
 	if g == nil || !g.sealedOK {
 		return nil
@@ -858,6 +927,9 @@ func vwBudget(r *vfRng, st *vfStats) vfCase {
 	pv := uint8(r.pick([]int{1, 2, 5}))
 	// the two verification flags are independent (a key roll-out runs with outgoing on, incoming off)
 	s := vwNodeCfg{name: "snd", label: label, keys: keys, vout: !r.chance(20), vin: !r.chance(40), pv: pv, compress: r.chance(30), udp: udp}
+	if len(keys) > 0 && r.chance(35) {
+		s.lateKeys, s.gossipFirst = true, r.chance(70)
+	}
 	rc := s
 	rc.name = "rcv"
 	rc.compress = false
@@ -999,6 +1071,9 @@ func TestVfWire(t *testing.T) {
 			}
 			if i%2 == 0 {
 				cases = append(cases, vwBudget(r, st))
+			}
+			if i%6 == 3 {
+				cases = append(cases, vwFlood(r, st))
 			}
 			if i%5 == 2 {
 				cases = append(cases, vwCryptoFailure(r, st))
